@@ -100,7 +100,9 @@ func richDoc(id int, g *docGen) string {
 			// the same few inline styles all over a site, on boxes in one page and on phrases in the next
 			styled = true
 			sb.WriteString(`<div style="` + siteStyles[id%3] + `">` + g.para(30) + `</div><p>` + g.words(20) +
-				` <span style="` + siteStyles[(id+1)%3] + `">` + g.words(3) + `</span> ` + g.words(20) + `</p>`)
+				` <span style="` + siteStyles[(id+1)%3] + `">` + g.words(3) + `</span> ` + g.words(10) +
+				// links inside the story that name only a query or only a fragment
+				` <a href="?view=print">` + g.words(1) + `</a> ` + g.words(5) + ` <a href="#fn1">` + g.words(1) + `</a> ` + g.words(5) + `</p>`)
 		}
 		return sb.String()
 	}
